@@ -260,3 +260,7 @@ def run(ctx):
     r2_validate_shape(ctx)
     r3_copy_direction(ctx)
     r4_planner(ctx)
+
+
+from .selftest import for_families as _ff  # noqa: E402
+selftest = _ff(['slice', 'gate'])
